@@ -568,9 +568,14 @@ enum XFRState {
     /// After the first SOA record has been encountered.
     AXFRFirstSoa(Serial),
     /// Start of IXFR.
-    IXFRInit,
+    ///
+    /// Keeps the serial of the SOA record in the authority section of the
+    /// request, i.e., the version of the zone that the requester has.
+    IXFRInit(Option<Serial>),
     /// After the first SOA record has been encountered.
-    IXFRFirstSoa(Serial),
+    ///
+    /// The second element is the serial from the request, see `IXFRInit`.
+    IXFRFirstSoa(Serial, Option<Serial>),
     /// After the first SOA record in a diff section has been encountered.
     IXFRFirstDiffSoa(Serial),
     /// After the second SOA record in a diff section has been encountered.
@@ -1000,7 +1005,7 @@ where
                 let qtype = match msg.to_message().and_then(|m| {
                     m.sole_question()
                         .map_err(|_| Error::MessageParseError)
-                        .map(|q| q.qtype())
+                        .map(|q| (q.qtype(), request_serial(&m)))
                 }) {
                     Ok(msg) => msg,
                     Err(e) => {
@@ -1008,10 +1013,11 @@ where
                         return;
                     }
                 };
+                let (qtype, request_serial) = qtype;
                 if qtype == Rtype::AXFR {
                     Some(XFRState::AXFRInit)
                 } else if qtype == Rtype::IXFR {
-                    Some(XFRState::IXFRInit)
+                    Some(XFRState::IXFRInit(request_serial))
                 } else {
                     // Stream requests should be either AXFR or IXFR.
                     _ = req.sender.send(Err(Error::FormError));
@@ -1120,7 +1126,7 @@ where
     // query, or it MAY be empty.  However, in an error response message
     // (see Section 2.2), this section MUST be copied as well."
     match xfr_state {
-        XFRState::AXFRInit | XFRState::IXFRInit => {
+        XFRState::AXFRInit | XFRState::IXFRInit(_) => {
             // Only subsequent messages may leave out the question. An error
             // response without any sections is the one exception, see
             // is_answer.
@@ -1134,7 +1140,7 @@ where
             }
         }
         XFRState::AXFRFirstSoa(_)
-        | XFRState::IXFRFirstSoa(_)
+        | XFRState::IXFRFirstSoa(_, _)
         | XFRState::IXFRFirstDiffSoa(_)
         | XFRState::IXFRSecondDiffSoa(_) =>
             // No need to check anything.
@@ -1209,17 +1215,17 @@ where
 
                 // Any other record, just continue.
             }
-            XFRState::IXFRInit => {
+            XFRState::IXFRInit(ours) => {
                 // The first record has to be a SOA record.
                 if let AllRecordData::Soa(soa) = rr.data() {
-                    xfr_state = XFRState::IXFRFirstSoa(soa.serial());
+                    xfr_state = XFRState::IXFRFirstSoa(soa.serial(), ours);
                     continue;
                 }
                 // Bad data. Switch to error status.
                 xfr_state = XFRState::Error;
                 return (false, xfr_state, false);
             }
-            XFRState::IXFRFirstSoa(serial) => {
+            XFRState::IXFRFirstSoa(serial, _) => {
                 // We have three possibilities:
                 // 1) The record is not a SOA. In that case the format is AXFR.
                 // 2) The record is a SOA and the serial is not the current
@@ -1280,7 +1286,7 @@ where
 
     // Check the final state.
     match xfr_state {
-        XFRState::AXFRInit | XFRState::IXFRInit => {
+        XFRState::AXFRInit | XFRState::IXFRInit(_) => {
             // Still in one of the init state. So the data section was empty.
             // Switch to error state.
             xfr_state = XFRState::Error;
@@ -1291,15 +1297,14 @@ where
         | XFRState::IXFRSecondDiffSoa(_) =>
             // Just continue.
             {}
-        XFRState::IXFRFirstSoa(serial) => {
+        XFRState::IXFRFirstSoa(serial, ours) => {
             // The message held nothing but the initial SOA record. That is
             // the complete response if the server has nothing newer than
             // what we have (RFC 1995 section 4). But a server is free to
             // send one record per message, so if its serial is newer than
             // the one in our request this is only the first message of the
             // response and the rest is still to come.
-            let more_to_come =
-                request_serial(msg).is_some_and(|ours| serial > ours);
+            let more_to_come = ours.is_some_and(|ours| serial > ours);
             if !more_to_come {
                 xfr_state = XFRState::Done;
                 return (true, xfr_state, true);
@@ -1315,11 +1320,12 @@ where
 
 /// Returns the serial of the SOA record in the authority section of an IXFR
 /// request, i.e. the version of the zone that the requester has.
-fn request_serial<CRM>(msg: &CRM) -> Option<Serial>
-where
-    CRM: ComposeRequestMulti,
-{
-    let msg = msg.to_message().ok()?;
+///
+/// This is looked at when the request is taken on, together with its query
+/// type. The request must not be composed again once it is on its way: for a
+/// request that gets signed when it is composed that would replace the
+/// signer that has to verify the responses.
+fn request_serial<Octs: Octets>(msg: &Message<Octs>) -> Option<Serial> {
     let soa = msg
         .authority()
         .ok()?
